@@ -42,6 +42,7 @@ type Op struct {
 	Label   string `json:"label,omitempty"` // payload label (default p<k>)
 	Ctx     string `json:"ctx,omitempty"`
 	Trace   string `json:"trace,omitempty"`
+	BadCtx  bool   `json:"badCtx,omitempty"` // front-end mode: send a client context header that is not base64
 
 	// until
 	Actor string `json:"actor,omitempty"`
@@ -170,7 +171,11 @@ func (r *runner) call(op *Op) {
 		if caller == 0 {
 			caller = 1
 		}
-		s.Invoke(caller, op.body(), label, op.Ctx, op.Trace)
+		if s.Opt.FrontEnd {
+			s.FEInvoke(caller, op.body(), op.Ctx, op.Trace, op.BadCtx)
+		} else {
+			s.Invoke(caller, op.body(), label, op.Ctx, op.Trace)
+		}
 	case "reset":
 		s.Rec.Emit("plat", "ResetCall", "reason", op.Reason, "timeoutMs", op.Ms)
 		_, err := s.Srv.Reset(op.Reason, int64(op.Ms))
@@ -312,7 +317,9 @@ func Run(sc *Scenario, outDir string) Outcome {
 		var herr error
 		switch op.Op {
 		case "init":
-			s.Init()
+			if !s.Opt.FrontEnd { // the front end initialises on the first request
+				s.Init()
+			}
 		case "call":
 			if op.Async {
 				ch := make(chan struct{})
